@@ -10,6 +10,11 @@ CHECKS = {
     technique='TLA+/TLC: trace validation of recorded allocator histories against HeapInv.tla; TLC model run of Schedule.tla on the published memory maps; Heap.tla design run + spec-to-code replay',
     text='TLC evaluates the allocator statement (tiling, free list = non-live chunks, coalescing, true high-water mark, no overlap on alloc) after every call of the real Heap in TLC-generated (every distinct state/last-op of the bounded model), seeded random and SimOps-induced histories; the published memory maps of random circuits x capacities x {c_reuse} x {strip_forks} are executed in Schedule.tla (level-wise for all, every interleaving for narrow levels) with operand validity, Pinned, WithinCLen, AliasExact. The concrete model Heap.tla is exhaustively checked inside its bounds and must conform step by step (DRIFT only).',
     note='Trusted: TLC, CommunityModules JSON reader, the harness projection of Heap tables / SimOps arrays, the recording Heap subclass. Histories free only live chunks. Exhaustive only inside the stated model constants; beyond them seeded sampling judged by the spec.'),
+ 'C07': dict(
+    cat='model_checking', ref='DESIGN.md §4 C07, §3 (Schedule, ThreadOrder, SchedReplay)',
+    technique='TLA+/TLC: model run of Schedule.tla on the published schedule (all Begin/End interleavings for narrow levels, level-wise static form for all); TLC-simulated thread orders (ThreadOrder.tla) replayed into the real simulators, judged by SchedReplay.tla',
+    text='What the real SimOps published (ops, level partition, memory map) for random circuits x capacities x {c_reuse} x {strip_forks} is executed by TLC: every interleaving of operation begin/end events of every level when the widest level is small, and for all schedules the level-wise form (operands valid at level start + pairwise disjointness of writes against reads/writes); which signal an operand stands for is computed by the spec from the netlist. TLC-generated orders of operations and of (lane, operation) threads are executed on the real LogicSim, WaveSim (rows of ops permuted) and WaveSimCuda (mock launcher order replaced); memories (scratch masked), results and activity counters must be bit-identical to the sequential run.',
+    note='Mock-GPU threads run to completion (MockCuda semantics); real GPU memory-model effects are out of reach. Threads of different lanes touch disjoint columns (by construction of the kernels). Trusted: TLC, JSON reader, harness export of SimOps arrays, digests of raw array bytes.'),
 }
 REASON_PENDING = 'check not built yet in this session (specification and harness under construction); not claimed'
 
